@@ -2150,7 +2150,8 @@ Lemma falsy_encoding : forall e1, wv_truthy e1 = false ->
 Proof.
   intros e1 H. unfold newline_encoding_of. rewrite H. split; [reflexivity|]. intros x.
   destruct e1; cbn [enc1_name]; try reflexivity.
-  cbn [wv_truthy] in H. destruct t; [|discriminate H]. cbn. apply strip_bom_no_entry. apply ascii_no_bom.
+  cbn [wv_truthy] in H. destruct t; [|discriminate H].
+  assert (E : c_enc ascii [] = Some []) by reflexivity. rewrite E. apply strip_bom_no_entry. apply ascii_no_bom.
 Qed.
 
 Lemma dos_newline_format : assoc_get beq GenText.le_dos GenText.newline_formats = Some (nl_text GenText.le_dos).
@@ -2199,7 +2200,7 @@ Proof.
         split; [eauto|]. split; [eapply TextFacts.assoc_get_beq_in; exact Hnl|]. split; [exact Hle|].
         split; [reflexivity|]. cbn [enc1_name]. rewrite Heb'. eapply gnft_unfold; eassumption.
       + destruct (falsy_encoding e1 Et) as [Hn Hs]. rewrite Hn in Hne. injection Hne as <-.
-        assert (eb' = B "ascii") by (vm_compute in Heb'; congruence). subst eb'.
+        assert (eb' = B "ascii") by (vm_compute in Heb'; injection Heb' as <-; reflexivity). subst eb'.
         split; [reflexivity|]. split; [eapply TextFacts.assoc_get_beq_in; exact Hnl|]. split; [exact Hle|].
         split; [reflexivity|]. rewrite Hs. rewrite (gnft_unfold _ _ _ _ Hnl Hpy).
         rewrite strip_bom_no_entry by apply ascii_no_bom. reflexivity.
@@ -2213,11 +2214,61 @@ Proof.
         exists eb, (fst a0). split; [eauto|]. split; [exact Hin|]. split; [reflexivity|]. split; [congruence|].
         cbn [enc1_name]. rewrite Heb. rewrite (model_newline_strip_idem _ _ _ Hg). exact Hg.
       + destruct (falsy_encoding e1 Et) as [Hn Hs]. rewrite Hn in E.
-        assert (a = Some (B "ascii")) by (vm_compute in E; congruence). subst a.
+        assert (a = Some (B "ascii")) by (vm_compute in E; injection E as <-; reflexivity). subst a.
         exists (B "ascii"), (fst a0). split; [reflexivity|]. split; [exact Hin|]. split; [reflexivity|].
         split; [congruence|]. rewrite Hs. exact Hg. }
   destruct Hmain as (eb & lename & Ha & Hb & Hc & Hd & Hg).
   exists e1, eb, lename, (strip_bom nb (enc1_name e1)).
   destruct (TextFacts.model_newlines_unbordered _ _ _ Hg) as [Hne Hu].
   repeat (split; [assumption|]). exact H4.
+Qed.
+
+(* outside C02's quantifier (encodings are codec names there), but worth recording: the container calls do
+   not validate their encoding argument; an accepted call can emit a header outside the grammar *)
+Definition ex_bad_container_call : call := NewChange (WStr (T "x y")).
+
+(* ================================================================================================ *)
+(** * Bundled forms quoted by props/C02.v *)
+
+Theorem isort_sorted_perm : forall {A} (leb : A -> A -> bool),
+  (forall a b, leb a b = true \/ leb b a = true) ->
+  (forall a b c, leb a b = true -> leb b c = true -> leb a c = true) ->
+  forall l, StronglySorted (fun a b => leb a b = true) (isort leb l) /\ Permutation l (isort leb l).
+Proof. intros A leb Ht Htr l. split; [apply isort_sorted; assumption|apply isort_perm]. Qed.
+
+Theorem C02_header_canonical : forall section opts h, render_header section opts = Ok h ->
+  exists pairs,
+    Forall2 pair_of (present (sort_opts opts)) pairs /\
+    StronglySorted key_le (present (sort_opts opts)) /\
+    Permutation (present opts) (present (sort_opts opts)) /\
+    h = B "#" ++ section ++ B ":" ++ header_tail pairs ++ [x0a].
+Proof.
+  intros section opts h H. destruct (C02_header_shape section opts h H) as (pairs & HF & E).
+  exists pairs. split; [exact HF|]. split; [apply present_sort_sorted|]. split; [apply present_sort_perm|exact E].
+Qed.
+
+Theorem decimal_round_trip : forall z, small_int z ->
+  convert_value (Z_to_dec z) = VInt z /\ HeaderFacts.spec_val (Z_to_dec z).
+Proof. intros z H. split; [apply convert_value_Z_to_dec; exact H|apply Z_to_dec_spec_val]. Qed.
+
+Theorem sort_kb_sorted_perm : forall kv, StronglySorted tkey_le (sort_kb kv) /\ Permutation kv (sort_kb kv).
+Proof. intros kv. split; [apply sort_kb_sorted|apply sort_kb_perm]. Qed.
+
+Lemma ex_bad_container : exists s',
+  do_call ex_bad_container_call ex_state = (s', Ok tt) /\
+  w_out s' = w_out ex_state ++ B "#.change: encoding=x y" ++ [x0a] /\
+  parse_header (WriterFacts.table (B "diffx")) (B "#.change: encoding=x y") = HErr None /\
+  ~ call_args_good ex_bad_container_call.
+Proof.
+  eexists. split; [vm_compute; reflexivity|]. split; [vm_compute; reflexivity|]. split; [vm_compute; reflexivity|].
+  intros [H|(eb & r & H & Hr)]; [discriminate H|].
+  injection H as H. apply (f_equal (map n_byte)) in H. rewrite map_n_byte_ascii_text in H. subst eb.
+  vm_compute in Hr. discriminate Hr.
+Qed.
+
+Lemma ex_run : WriterFacts.reachable ex_state /\ Forall call_args_good ex_calls /\
+  map fst (fst (run_calls ex_state ex_calls)) = [Ok tt; Ok tt] /\
+  w_out (snd (run_calls ex_state ex_calls)) = ex_stream.
+Proof.
+  split; [exact WriterFacts.ex_reachable|]. split; [exact ex_calls_good|]. split; vm_compute; reflexivity.
 Qed.
